@@ -1,4 +1,6 @@
-package parquet_test
+package scratch
+
+// D94 (C03): failed before the fix commit; see known_findings.json.
 
 // PRE-EXISTING (fails on the UNCHANGED tree, independent of patch.diff).
 //
@@ -13,7 +15,7 @@ package parquet_test
 // on the same entry point.
 //
 // Place in the repository root and run:
-//   GOFLAGS=-mod=mod GOPROXY=off go test -vet=off -count=1 -timeout 600s -run TestPreexistingC03MapEntryOrder .
+//   GOFLAGS=-mod=mod GOPROXY=off go test -vet=off -count=1 -timeout 600s -run TestD94MapEntryOrder .
 
 import (
 	"bytes"
@@ -56,7 +58,7 @@ func preC03Dump(t *testing.T, data []byte) []string {
 	return out
 }
 
-func TestPreexistingC03MapEntryOrder(t *testing.T) {
+func TestD94MapEntryOrder(t *testing.T) {
 	m := map[string]int64{}
 	for i := 0; i < 40; i++ {
 		m[fmt.Sprintf("k%02d", i)] = int64(i)
